@@ -37,3 +37,15 @@ Theorem C09_emitted_ws_reads_back_newline_independent :
   fmt_of_ws (Reconstruct.emit_ws (rs_new true tabs iw cw) mb (tok, f)) ign =
   fmt_of_ws (Reconstruct.emit_ws (rs_new false tabs iw cw) mb (tok, f)) ign.
 Proof. exact fmt_of_emit_ws_newline_indep. Qed.
+
+(* the first phase of the wrapper reads no string of the reconstruction settings - in particular not the newline string - and the
+   tokens only through tokinfo_of (the second phase compares re-indented literal text, terminators included: differential oracle) *)
+From PasfmtVerif Require Import Model.WrapContexts Model.WrapSearch Model.WrapFormat Proofs.WrapSearchProofs Proofs.WrapWidthFree Proofs.WrapSimProofs Proofs.WrapUnconstrainedProofs Proofs.WrapWidthIndependence Proofs.WrapFileProofs Proofs.WrapReadsProofs Proofs.WrapSoundTransferProofs.
+Theorem C09_search_phase1_independent_of_newline_and_settings_strings :
+  forall (rs rs' : rsettings) (W : wsettings) (lines : list lline) (l l' : list ftoken),
+  map tokinfo_of l = map tokinfo_of l' ->
+  snd (fst (olf_model rs W false lines l)) = snd (fst (olf_model rs' W false lines l')) /\
+  snd (olf_model rs W false lines l) = snd (olf_model rs' W false lines l').
+Proof. exact olf_phase1_events_read. Qed.
+
+
